@@ -212,17 +212,22 @@ PROPS = {
         undecided=['size of the second-order residual (a Taylor remainder)',
                    'behaviour at the pitch singularity']),
     'C04': dict(
-        rules=[geo.geo_curv, geo.parity, errmodel.em_2d, errmodel.em_units, errmodel.em_frame,
-               errmodel.em_gravgrad, kernel.ker_consist, kernel.sib_grav],
-        decided=['dimensional homogeneity of every entry of F, B_gyro, B_accel, the output '
+        rules=[geo.geo_curv, geo.parity, errmodel.em_linear, errmodel.em_2d, errmodel.em_units,
+               errmodel.em_frame, errmodel.em_gravgrad, errmodel.es_first, kernel.ker_consist,
+               kernel.sib_grav],
+        decided=['F, B_gyro, B_accel equal the symbolic linearisation of the navigation equations '
+                 '(assembled from earth.*) in the error coordinates that correct_pva implements: '
+                 'exactly for a stationary vehicle and in every velocity-dependent entry the model '
+                 'has; the neglected remainder is proportional to velocity',
+                 'dimensional homogeneity of every entry of F, B_gyro, B_accel, the output '
                  'transform and the Jacobians', 'body-frame covariance of the coupling matrices, F '
                  'independent of attitude', '7-state model is exactly S F E / S B of the 9-state '
                  'model; embedding call sites', 'vertical coupling = gravity gradient of '
                  'earth.gravity; integrator and model share the earth functions (kernel tied to '
                  'them by first-order consistency)'],
-        undecided=['that every block equals the measured sensitivity of the integrator (signs and '
-                   'dimensionless factors with consistent units, e.g. 2*Omega+rho vs Omega+rho)',
-                   'size of the neglected terms', 'accuracy of the trapezoidal propagation']),
+        undecided=['numerical size of the neglected velocity-proportional couplings along a given '
+                   'trajectory', 'accuracy of the trapezoidal discrete propagation '
+                   '(propagate_errors) and of the discretisation in the filters']),
     'C03': dict(
         rules=[frames.frame_suffix, simrules.sim_inc, simrules.sim_struct, simrules.sim_kin],
         decided=['rate-type readings satisfy the navigation equations assembled from earth.* for an '
